@@ -441,6 +441,8 @@ def _getput_line_comment(
     if is_block := (ast_cls in ASTS_LEAF_BLOCK):
         if field is None:
             field = 'body'
+        elif field == 'orelse' and (orelse := getattr(ast, 'orelse', None)) and (f := orelse[0].f).is_elif():  # the header is that of the 'elif' node itself, it has to be normalized as the body of that node if needed
+            return f._getput_line_comment(comment, 'body', full)
 
         _, _, end_ln, end_col = self._loc_block_header_end(field)
 
